@@ -85,7 +85,27 @@ def make_case(seed, shard, i):
         rows.append([])
     pol = [f for f in ("collect", "stop", "fail", "print") if r.random() < 0.5]
     scan = r.choice(["*", "*", "1*", "0-3", "1-4"])
-    return {"scan": scan, "comps": comps, "mode": "AND"}, rows, pol
+    prog = {"scan": scan, "comps": comps, "mode": "AND"}
+    if r.random() < 0.25:
+        # the csvpath's own validation-mode: each token overrides the corresponding configured flag for this csvpath
+        toks = r.sample(["fail", "no-fail", "stop", "no-stop", "no-raise"], r.randint(1, 2))
+        if not ({"fail", "no-fail"} <= set(toks)) and not ({"stop", "no-stop"} <= set(toks)):
+            prog["comment"] = "validation-mode: " + ", ".join(toks) + " "
+    return prog, rows, pol
+
+
+def effective_policy(prog, pol):
+    c = prog.get("comment") or ""
+    if "validation-mode:" not in c:
+        return None
+    toks = [t.strip() for t in c.split("validation-mode:")[1].split(",")]
+    eff = set(pol)
+    for flag in ("fail", "stop", "raise", "print"):
+        if "no-" + flag in toks:
+            eff.discard(flag)
+        elif flag in toks:
+            eff.add(flag)
+    return [f for f in ("collect", "stop", "fail", "print", "raise") if f in eff]
 
 
 ALLOWED_CAUSES = {
@@ -126,7 +146,7 @@ def run_one(prog, rows, pol, agg):
     from vfy import diffrun
 
     prog = lang.tolist(prog)
-    status, info = diffrun.decide(prog, rows, agg, WHAT, KNOWN_SWITCHES, extra_check=valid_monitor, policy=pol)
+    status, info = diffrun.decide(prog, rows, agg, WHAT, KNOWN_SWITCHES, extra_check=valid_monitor, policy=pol, model_policy=effective_policy(prog, pol))
     flags = "/".join("".join(r[1:4]) if r else "B" for r in rows)
     shape = lang.prog_shape(prog) + "|" + flags + "|" + ",".join(pol)
     case = {"prog": prog, "rows": rows, "policy": pol}
